@@ -17,6 +17,7 @@ def run(chk, prog):
     from . import C09
 
     tmp = Check("C09", chk.tier, chk.seed, write_evidence=False)
+    tmp.nested = True
     C09.run(tmp, prog)
     viol = {(v["rule"], v["instance"]): v for v in tmp.violations}
     n9 = 0
